@@ -32,6 +32,9 @@ def offset_slice_indices_lsb0(key: slice, length: int) -> slice:
         new_stop = length - 1 - first_element - 1
         if new_stop < 0:
             new_stop = None
+    elif stop <= start:
+        # An empty slice. Only its position matters (it is where a slice assignment inserts).
+        new_start = new_stop = length - start
     else:
         first_element = start
         # The last element will usually be stop - 1, but needs to be adjusted if step != 1.
